@@ -9,6 +9,8 @@ NOTE = ("Trusted base: go/types, go/ssa, the VTA/CHA call graph (x/tools v0.29.0
         "it does not execute parsley code.")
 
 CLAIMED = {
+ "C02": dict(ref="§4 C02", technique="guard dominance on SSA (edge-dominating branch conditions) + phi-edge tracing of the left-recursion context at every hand-on site; shape recognition of memoizing parsers",
+   text="Static path rules deciding the three lemmas behind the re-entry bound for every grammar and input: curtailment test dominates the wrapped call (K<=1), the wrapped call gets the incoming context incremented at the parser's own index, and every other hand-on of a context passes the incoming one unless a dominating guard proves progress of the position handed on (never across a loop back edge). The bound itself follows by a hand-written argument; termination of user parsers and value-level behaviour of IntMap/Remaining are not decided."),
  "C07": dict(ref="§4 C07", technique="interprocedural ownership/freshness dataflow over SSA (access-path origins, mutator summaries, call-graph fixpoint) + use-walk for slice retention",
    text="Static ownership analysis: every write to node fields, node-list elements and cache entries in code reachable from any Parser.Parse targets storage allocated by the writing activation; result handlers do not retain the scratch slice; the cache stores exactly what it returns. Close to sufficient for 'a returned result is never modified afterwards' under A-user/A-alias, for all grammars/inputs/request orders. One genuine defect (RightTrim) is a recorded known finding."),
  "C14": dict(ref="§4 C14", technique="effect analysis on shared locations: package-level variables, captured variables of escaping closures, receivers of Parse methods (ownership engine + escape use-walk)",
